@@ -47,7 +47,7 @@ CHECKS = {
                    "both accepted); sustained drop runs with unique increasing RTTs (so probes are observable) must reach the floor within an "
                    "analytic bound of effective samples; cap without enough effective samples is inconclusive. Exploration.",
         require=["single_drop_samples", "single_drop_lowered", "aimd_exact_rule_checks", "sustained_drop_samples",
-                 "floor_reached/aimd", "floor_reached/vegas", "floor_reached/gradient", "probe_or_baseline_samples_observed"],
+                 "floor_reached/aimd", "floor_reached/vegas", "floor_reached/gradient", "probe_or_baseline_samples_observed", "concurrent_drop_rounds"],
         rule="case = (algorithm in AIMD/Vegas/Gradient, valid config, random prefix of 0-150 benign/hostile samples) then either 1-4 hostile drop "
              "samples or a sustained drop run; non-trivial = some drop lowered the estimate / the run started above the floor; distinct = "
              "distinct (config, history length, last sample / start estimate).",
@@ -62,7 +62,7 @@ CHECKS = {
                    "(Gradient), or bring the reported estimate to ceiling-1 within an analytic sample bound (Vegas, Gradient2); a run that stopped "
                    "rising below the ceiling is a violation, one still rising at the cap is inconclusive. Exploration.",
         require=["app_limited_samples", "app_limited_samples_at_the_edge", "healthy_samples", "recovered/aimd", "recovered/vegas",
-                 "recovered/gradient", "recovered/gradient2", "gradient_probes_observed"],
+                 "recovered/gradient", "recovered/gradient2", "gradient_probes_observed", "concurrent_saturated_rounds"],
         rule="case = (algorithm, valid config, random prefix of 0-150 hostile/drop-heavy/benign samples) then app-limited samples or a healthy "
              "saturated run; non-trivial = run started below ceiling-1 (always for app-limited cases); distinct = distinct (config, start estimate, history length).",
         assumptions=COMMON_ASSUME + ["bounded part: smoothing>=0.05, max<=300, Vegas probe multiplier>=5, rtt tolerance>=1, long window in [1,200], "
@@ -114,10 +114,12 @@ CHECKS = {
                    "statement), total busy/limit, every bin count and every bin share are compared with an integer-arithmetic reference model "
                    "(dyadic and decimal fractions, zero fractions, unknown/unmatched/empty keys, overlapping predicates, limits set to <=0). "
                    "Concurrent: 2-6 goroutines on one strategy, client-boundary histories on a logical clock checked with porcupine against the "
-                   "same model, bins must be zero at quiescence. Exploration over the sequences and interleavings produced.",
+                   "same model, bins must be zero at quiescence. Storms: 2-5 concurrent SetLimit callers, and AddPartition racing with a "
+                   "limit change (barrier-released, 120 rounds): at quiescence every bin share must be the share of the limit in force. "
+                   "Exploration over the sequences and interleavings produced.",
         require=["acquires", "releases", "setlimits", "partition_adds", "partition_removes", "grants_on_guaranteed_share_while_total_full",
                  "grants_borrowing_beyond_share", "requests_for_unknown_or_unmatched_keys", "concurrent_histories", "histories_linearizable",
-                 "overlapping_operation_pairs", "sequential_cases/lookup", "sequential_cases/predicate"],
+                 "overlapping_operation_pairs", "sequential_cases/lookup", "sequential_cases/predicate", "storm_quiescent_share_checks", "storm_add_vs_setlimit_rounds"],
         rule="sequential case = (strategy kind, 1-5 partitions with fractions k/32 or k/100 summing <=1, total limit 1-50, 20-120 ops); concurrent case = "
              "(config, 2-6 goroutines x 3-8 pre-drawn ops, small limit); limits whose share would depend on binary rounding of limit*fraction are "
              "avoided, not judged. non-trivial = both grants and refusals occurred (sequential) / at least one overlapping operation pair (concurrent); "
@@ -188,8 +190,8 @@ CHECKS = {
                    "stuck state (no progress for two watchdog periods, capacity free, workers inside Acquire) is a violation. Exploration of forced interleavings, not all schedules.",
         require=["scenarios", "quiescent_snapshots", "scenarios_reaching_their_schedule_point", "snapshots_with_blocked_callers",
                  "reached/after-failed-attempt-1", "reached/queue.after_push", "reached/queue.before_push", "reached/loser-retry",
-                 "reached/handoff-vs-cancel", "reached/handoff-vs-timeout", "reached/asleep", "stress_runs", "stress_grants"],
-        rule="scenario grid = limiter kind (7) x release point (6-9) x capacity {1,2} x waiters {1,2,3} x outcome (3); quick runs the grid 3 times, thorough 1500 "
+                 "reached/handoff-vs-cancel", "reached/handoff-vs-timeout", "reached/next-in-line-cancelled-but-not-evicted", "reached/asleep", "stress_runs", "stress_grants"],
+        rule="scenario grid = limiter kind (7) x release point (6-10) x capacity {1,2} x waiters {1,2,3} x outcome (3); quick runs the grid 3 times, thorough 1500 "
              "times with PRNG pause budgets / strategy kind / targeted waiter; non-trivial = schedule point reached and some waiter granted; distinct = distinct scenario tuples.",
         assumptions=COMMON_ASSUME + ["sync.Cond.Wait, channel ops and select are durably blocking in a bubble, sync.Mutex is not (a caller waiting for a mutex counts as running)",
                                      "pauses at schedule points are bounded yields, never waits: they cannot deadlock an implementation that holds a lock across the window"],
@@ -215,9 +217,11 @@ CHECKS = {
                    "queue limiter without eviction) - not earlier, not later - with cancellation placed before / at / after arrival and at / after the "
                    "bound, arrivals before / at / after the deadline; calls for which no bound applies must still be blocked; already-cancelled "
                    "contexts and passed deadlines are refused immediately even with capacity free and leave the busy count unchanged. Virtual time is "
-                   "exact, so equality (now == deadline) is exercised. Exploration over a grid x PRNG durations.",
+                   "exact, so equality (now == deadline) is exercised. Contexts end by explicit cancel or by their own deadline. A two-waiter "
+                   "variant (one release before every bound, the winner keeps the token) requires the loser to be refused at exactly its own bound. "
+                   "Exploration over a grid x PRNG durations.",
         require=["scenarios", "exact_return_instants_checked", "refused_calls_hold_nothing_checks", "calls_correctly_still_blocked",
-                 "calls_exactly_at_the_deadline", "family/queue", "family/deadline", "family/blocking"],
+                 "calls_exactly_at_the_deadline", "family/queue", "family/deadline", "family/blocking", "contexts_ending_by_their_own_deadline", "two_waiter_scenarios"],
         rule="grid = limiter kind (7) x cancel placement (6) x arrival placement (3, deadline only) x capacity exhausted/free, each with PRNG timeout "
              "(1ms-1h), arrival and cancel instants; quick 20 per cell, thorough 5000; all cases non-trivial; distinct = distinct (cell, instants).",
         assumptions=COMMON_ASSUME + ["a release at exactly the bound is not judged here (either verdict is legal; conservation is C02)"],
@@ -230,7 +234,7 @@ CHECKS = {
                    "check->push, push->select and hand-off windows. At every quiescent point the public queue_size gauge, the backlog length and the "
                    "number of callers whose Acquire has not returned must agree and stay within the bound; an arrival at a full backlog must be "
                    "refused at the instant it arrived; a cancelled caller (eviction on) must have left. Exploration.",
-        require=["scenarios", "quiescent_checks", "arrivals_at_full_backlog", "simultaneous_bursts"],
+        require=["scenarios", "quiescent_checks", "arrivals_at_full_backlog", "simultaneous_bursts", "give_ups_overlapping_a_release", "default_bound_cases"],
         rule="scenario = (queue config, capacity, 8-32 ops: arrive / burst of 2-5 / release / cancel / sleep); non-trivial = more than 5 quiescent "
              "checks; distinct = distinct (config, op list).",
         assumptions=COMMON_ASSUME,
@@ -262,7 +266,7 @@ CHECKS = {
                    "behaviourally. Exploration.",
         require=["sequential_layer_checks", "completions/success", "completions/ignore", "completions/dropped", "bubble_scenarios/blocking",
                  "bubble_scenarios/deadline", "bubble_scenarios/queue", "quiescent_checks", "give_up_events_injected",
-                 "releases_at_the_instant_of_a_bound", "stress_grants", "stress_refusals", "pool_cases"],
+                 "releases_at_the_instant_of_a_bound", "bubble_scenarios_with_slow_delegate", "unknown_bin_conservation_probes", "stress_grants", "stress_refusals", "pool_cases"],
         rule="cases: sequential stack (40-120 ops), bubble scenario (8-32 ops on a PRNG limiter kind/capacity/time-out), pool churn, stress run; non-trivial = "
              "more than 5 quiescent checks (bubble) / grants and refusals both occurred (stress) / always (sequential, pool); distinct = distinct (config, op list).",
         assumptions=COMMON_ASSUME,
@@ -275,7 +279,7 @@ CHECKS = {
                    "the recorder received an OnSample, the strategy's limit must equal max(1, the estimate the recorder returned) and every partition "
                    "share max(1, ceil(limit x fraction)) of that same value; the lookup strategy's unknown bucket is probed behaviourally. A concurrent "
                    "variant (8 goroutines completing) checks the equality at quiescence. Exploration.",
-        require=["enforcement_checks", "share_checks", "updates_observed", "unknown_bucket_probes", "concurrent_scenarios",
+        require=["enforcement_checks", "share_checks", "updates_observed", "unknown_bucket_probes", "concurrent_scenarios", "add_vs_update_rounds_with_an_update",
                  "scenarios/simple", "scenarios/precise", "scenarios/lookup", "scenarios/predicate"],
         rule="scenario = (strategy kind with dyadic fractions, scripted trajectory or real algorithm, windowSize 10-13, 150-550 driver steps or 8x40 "
              "concurrent iterations); non-trivial = at least two updates observed; distinct = distinct (config, update count).",
